@@ -246,6 +246,10 @@ def eval_args(self, e, st):
             return
         k = e.keywords[i]
         if k.arg is None:
+            if self.lenient:
+                self.assume_log("lenient: **kwargs forwarded unchanged (keyword arguments not tracked take their defaults)")
+                yield from rec_kw(i + 1, acc, kw, s)
+                return
             raise Untranslatable("**kwargs call")
         for v, s2 in self.ev(k.value, s):
             kw2 = dict(kw)
@@ -416,6 +420,9 @@ def call_builtin(self, name, args, kwargs, st, node):
         body = self.truth(view.at(i), st)
         g = z3.And(0 <= i, i < view.length)
         yield bool_val(z3.ForAll([i], z3.Implies(g, body)) if name == "all" else z3.Exists([i], z3.And(g, body))), st
+        return
+    if name in ("max", "min") and any(isinstance(x, Unknown) or (isinstance(x, PyConst) and isinstance(x.v, float)) for x in a):
+        yield Unknown(name), st
         return
     if name in ("max", "min"):
         if len(a) >= 2:
@@ -977,7 +984,10 @@ def bind_params(self, c, fnode, args, kwargs, st):
     # coerce to declared parameter types
     for n, t in c.params.items():
         if n in env and isinstance(t, ty.T):
-            env[n] = self.coerce(self.iter_to_val(env[n], t, st), t, st)
+            if isinstance(env[n], (BoundMethod, Closure, FuncRef)) and isinstance(t, (Fun, Opaque)):
+                env[n] = Val(t, fresh("callable", t.sort()))      # identity of a passed callable is not tracked
+            else:
+                env[n] = self.coerce(self.iter_to_val(env[n], t, st), t, st)
     return env
 
 
